@@ -38,6 +38,53 @@ def markOp (N : Nat) (irr : List Bool) (act : Nat → Option Nat) : List Bool :=
 def findIrreducible (N : Nat) (ops : List (Nat → Option Nat)) : List Bool :=
   ops.foldl (markOp N) (List.replicate N true)
 
+/-! ### the block formula of `average_XX_block` (mode "sum") with `_rotate_XX_L_backwards`
+
+  Executable over any scalar type (`conj` = complex conjugation, the identity over `Rat`).  One operation contributes to
+  the entry `(p, q)` of the `n1 × n2` matrix at Cartesian component `i` of the target `(R, a, b)`:
+      conj^{tr} ( Σ_j rc[j,i] · Σ_r Σ_s conj(D1[r,p]) · X(new_R, a_map, b_map)[j][r,s] · D2[s,q] )
+  with `new_R = W·R + T1[a] − T2[b]` (`atom_R_map`), `rc` = `rotation_cart` times the parity signs, `D1 = rot_orb[a, isym]`
+  (the code multiplies by `rot_orb_dagger[a, isym]` from the left), `D2 = rot_orb[b, isym]`. -/
+
+section avgmodel
+variable {K : Type} [OfNat K 0] [Add K] [Mul K]
+
+def sumTo (n : Nat) (f : Nat → K) : K := (List.range n).foldl (fun acc j => acc + f j) 0
+
+/-- `_rotate_XX_L_backwards` on one source entry `Y` (indexed by Cartesian component, row, column) -/
+def pullEntry (conj : K → K) (tr : Bool) (n1 n2 nc : Nat) (rc d1 d2 : Nat → Nat → K)
+    (Y : Nat → Nat → Nat → K) (i p q : Nat) : K :=
+  let v := sumTo nc (fun j => rc j i * sumTo n1 (fun r => sumTo n2 (fun s => conj (d1 r p) * Y j r s * d2 s q)))
+  if tr then conj v else v
+
+/-- one symmetry operation as the code holds it for one pair of blocks -/
+structure OpData (K : Type) where
+  W : Nat → Nat → Int           -- symop.rotation (lattice coordinates)
+  tr : Bool                     -- symop.time_reversal
+  rc : Nat → Nat → K            -- rotation_cart (times parity_I·(−1)^ncart for inversions and parity_TR for TR)
+  amap1 : Nat → Nat             -- atommap_list[block1][:, isym]
+  amap2 : Nat → Nat
+  T1 : Nat → Nat → Int          -- T_list[block1][a, isym]
+  T2 : Nat → Nat → Int
+  D1 : Nat → Nat → Nat → K      -- rot_orb_list[block1][a, isym]
+  D2 : Nat → Nat → Nat → K
+
+/-- `atom_R_map[iR, a, b] = R·rotationᵀ + T1[a] − T2[b]` -/
+def newR (g : OpData K) (R : Int × Int × Int) (a b : Nat) : Int × Int × Int :=
+  let r : Nat → Int := fun k => match k with | 0 => R.1 | 1 => R.2.1 | _ => R.2.2
+  let c : Nat → Int := fun k => g.W k 0 * r 0 + g.W k 1 * r 1 + g.W k 2 * r 2 + g.T1 a k - g.T2 b k
+  (c 0, c 1, c 2)
+
+/-- entry of the averaged block: `invN · Σ_g` contribution of `g` (`invN = 1/len(use_symmetries_index)`); `X` returns
+    zero for (R, a, b) that are not stored (the code skips them) -/
+def blockAvgEntry (conj : K → K) (n1 n2 nc : Nat) (ops : List (OpData K))
+    (X : Int × Int × Int → Nat → Nat → Nat → Nat → Nat → K) (invN : K)
+    (R : Int × Int × Int) (a b i p q : Nat) : K :=
+  invN * ops.foldl (fun acc g =>
+    acc + pullEntry conj g.tr n1 n2 nc g.rc (g.D1 a) (g.D2 b) (X (newR g R a b) (g.amap1 a) (g.amap2 b)) i p q) 0
+
+end avgmodel
+
 /-! ### driver -/
 open WB.IO
 
@@ -45,6 +92,9 @@ open WB.IO
 def actOfTable (tbl : List Int) : Nat → Option Nat := fun x =>
   let v := tbl.getD x (-1)
   if v < 0 then none else some v.toNat
+
+def toArr2 {α : Type} (m : List (List α)) : Array (Array α) := (m.map List.toArray).toArray
+def get2 {α : Type} (arr : Array (Array α)) (d : α) (i j : Nat) : α := (arr.getD i #[]).getD j d
 
 def handle : List String → String
   -- irr <N> <table per operation: images of 0..N-1, -1 for none>  ->  indices that stay irreducible
@@ -54,6 +104,49 @@ def handle : List String → String
       let r := findIrreducible n (t.map actOfTable)
       showNats ((List.range n).filter (fun x => r.getD x false))
     | _, _ => "bad-op"
+  -- avg <n1> <n2> <nc> <na1> <na2> <targets R0,R1,R2,a,b;...> <keys R0,R1,R2,a,b;...> <vals: row (key*nc+j)*n1+r>
+  --     <W rows op*3+k> <tr flags> <rc rows op*nc+j> <amap1 rows per op> <amap2 rows per op> <T1 rows op*na1+a>
+  --     <T2 rows op*na2+b> <D1 rows (op*na1+a)*n1+r> <D2 rows (op*na2+b)*n2+s> <1/nops>
+  --   -> rows (target*nc+i)*n1+p of the averaged entries
+  | ["avg", n1, n2, nc, na1, na2, tg, ks, vs, w, trs, rcs, am1, am2, t1, t2, d1, d2, invn] =>
+    match parseNat? n1, parseNat? n2, parseNat? nc, parseNat? na1, parseNat? na2, parseIntss? tg, parseIntss? ks,
+          parseRatss? vs, parseIntss? w, parseNats? trs with
+    | some n1, some n2, some nc, some na1, some na2, some tg, some ks, some vs, some w, some trs =>
+      match parseRatss? rcs, parseNatss? am1, parseNatss? am2, parseIntss? t1, parseIntss? t2, parseRatss? d1,
+            parseRatss? d2, parseRat? invn with
+      | some rcs, some am1, some am2, some t1, some t2, some d1, some d2, some invn =>
+        let vsA := toArr2 vs
+        let wA := toArr2 w
+        let rcA := toArr2 rcs
+        let t1A := toArr2 t1
+        let t2A := toArr2 t2
+        let d1A := toArr2 d1
+        let d2A := toArr2 d2
+        let vsM := get2 vsA 0
+        let wM := get2 wA 0
+        let rcM := get2 rcA 0
+        let t1M := get2 t1A 0
+        let t2M := get2 t2A 0
+        let d1M := get2 d1A 0
+        let d2M := get2 d2A 0
+        let ops : List (OpData Rat) := (List.range trs.length).map fun g =>
+          { W := fun k l => wM (g * 3 + k) l, tr := trs.getD g 0 != 0,
+            rc := fun j i => rcM (g * nc + j) i,
+            amap1 := fun a => (am1.getD g []).getD a 0, amap2 := fun b => (am2.getD g []).getD b 0,
+            T1 := fun a k => t1M (g * na1 + a) k, T2 := fun b k => t2M (g * na2 + b) k,
+            D1 := fun a r p => d1M ((g * na1 + a) * n1 + r) p, D2 := fun b s q => d2M ((g * na2 + b) * n2 + s) q }
+        let X : Int × Int × Int → Nat → Nat → Nat → Nat → Nat → Rat := fun R a b =>
+          match ks.findIdx? (fun k => k == [R.1, R.2.1, R.2.2, (a : Int), (b : Int)]) with
+          | some key => fun j r s => vsM ((key * nc + j) * n1 + r) s
+          | none => fun _ _ _ => 0
+        showRatss (tg.flatMap fun t =>
+          let R : Int × Int × Int := (t.getD 0 0, t.getD 1 0, t.getD 2 0)
+          let a := (t.getD 3 0).toNat
+          let b := (t.getD 4 0).toNat
+          (List.range nc).flatMap fun i => (List.range n1).map fun p => (List.range n2).map fun q =>
+            blockAvgEntry id n1 n2 nc ops X invn R a b i p q)
+      | _, _, _, _, _, _, _, _ => "bad-op"
+    | _, _, _, _, _, _, _, _, _, _ => "bad-op"
   | _ => "bad-op"
 
 end WB.C20
